@@ -88,17 +88,12 @@ func ReqQueryAdd(req *bfe_basic.Request, params []string) {
 
 // ReqQueryRename renames query key from old name to new name.
 func ReqQueryRename(req *bfe_basic.Request, oldName string, newName string) {
-	var values []string
-	var ok bool
-
-	// add prefix "&" to simplify process
-	rawQuery := "&" + req.HttpRequest.URL.RawQuery
-
 	// parse the query
 	queries := queryParse(req)
 
-	// renanme query key from old name to new name
-	if values, ok = queries[oldName]; !ok {
+	// rename query key from old name to new name
+	values, ok := queries[oldName]
+	if !ok {
 		// not find
 		return
 	}
@@ -106,13 +101,19 @@ func ReqQueryRename(req *bfe_basic.Request, oldName string, newName string) {
 	queries.Del(oldName)
 	queries[newName] = values
 
-	// rename keys
-	srcKey := "&" + oldName + "="
-	dstKey := "&" + newName + "="
-	rawQuery = strings.Replace(rawQuery, srcKey, dstKey, -1)
-
-	// remove prefix "&"
-	req.HttpRequest.URL.RawQuery = rawQuery[1:]
+	// rename the key of every parameter whose decoded key is oldName,
+	// in whatever form it is written (a=1, %61=1, a)
+	params := strings.Split(req.HttpRequest.URL.RawQuery, "&")
+	for i, param := range params {
+		key, rest := param, ""
+		if j := strings.Index(param, "="); j >= 0 {
+			key, rest = param[:j], param[j:]
+		}
+		if k, err := url.QueryUnescape(key); err == nil && k == oldName {
+			params[i] = newName + rest
+		}
+	}
+	req.HttpRequest.URL.RawQuery = strings.Join(params, "&")
 }
 
 // queryFilter removes from rawQuery every "&"-separated parameter whose key
